@@ -3,7 +3,7 @@
 # sub-agent that is to write breaking changes for one property.  The agent gets the property text
 # and its worktree, nothing from /verif.  Prints the prompt file.
 set -eu
-R="$1"; ID="$2"
+R="$1"; ID="$2"; FLAV="${3:-}"
 A=/tmp/agent/$R-$ID
 rm -rf "$A/out"; mkdir -p "$A/out"
 if [ ! -d "$A/wt" ]; then git -C /repo worktree add --detach "$A/wt" HEAD -q; fi
@@ -26,6 +26,7 @@ What a good seeded change looks like:
   multi-step sequence of commands or calls, state carried from an earlier search/command/evaluation
   on the same object, an unusual input (a rare kind of move or position, an extreme number), a crash
   or deadline at a particular point, or two cooperating sites that each look fine alone.
+$FLAV
 * The two changes must be DIFFERENT in kind (different code site, different trigger). Prefer
   triggers that are rare: think about what a random tester that feeds thousands of generated
   positions / command scripts would still be unlikely to hit.
